@@ -25,6 +25,7 @@ RULE = (
     "and the same through Gateway.send / Gateway.listen. Non-trivial = payload contains ';' or a boundary id "
     "(99,100,254,255) or id-request/response with child != 255 or |type| >= 2^31; distinct = distinct case JSON."
     ' Round 5: the schema/gateway may be built in a copied contextvars context or another thread (`ctx`), and the warm-up may contain ill-formed look-alikes of the message (each field replaced, or the line cut short).'
+    ' Round 6: a decoded message (or a copy of it) edited by the caller must encode to its edited fields.'
 )
 ASSUMPTIONS = [
     "MessageSchema with set_protocol(get_protocol(v)) is the codec entry point (as in the repository's tests)",
